@@ -1387,6 +1387,105 @@ theorem exArith_ok (conf : Confidence Rex) (hv : ValidLevel conf) :
   obtain ⟨h1, h2⟩ := abs_le.mp hct
   cases conf <;> simp only [shapeOf, PosBounds] <;> (try constructor) <;> linarith
 
+/-- under positivity of the reciprocal-space bounds the harmonic call succeeds as soon as the
+    reciprocal-space call does -/
+theorem Harmonic.ciMean_ok_of_pos (crit : Crit Rex) (g : Harmonic Rex) (conf : Confidence Rex)
+    (J : Interval Rex) (hJ : g.recip.ciMean crit conf.flipped = .ok J) (hp : PosBounds J) :
+    ∃ I : Interval Rex, g.ciMean crit conf = .ok I := by
+  unfold Harmonic.ciMean
+  rw [hJ, Outcome.bind_ok]
+  cases conf with
+  | upper l => exact ⟨_, rfl⟩
+  | lower l => exact ⟨_, rfl⟩
+  | twoSided l =>
+    obtain ⟨a, b, rfl, hg⟩ := Arith.ciMean_ok_kind crit g.recip (.twoSided l) J hJ
+    have hle : a.val ≤ b.val := by
+      rw [Bool.eq_false_iff, Ne, RR.gt_iff] at hg
+      exact not_lt.mp hg
+    have : gt (Harmonic.recipBound b : Rex) (Harmonic.recipBound a) = false := by
+      rw [Bool.eq_false_iff, Ne, RR.gt_iff, recipBound_pos _ hp.1, recipBound_pos _ hp.2]
+      simp only [not_lt]
+      exact one_div_le_one_div_of_le hp.1 hle
+    refine ⟨.twoSided (Harmonic.recipBound b) (Harmonic.recipBound a), ?_⟩
+    simp only [intervalOfKind, Interval.new, Interval.highX, Interval.lowX, this, liftI,
+      Bool.false_eq_true, if_false]
+
+/-- the harmonic state whose reciprocal-space sample is `1, 2, 4` -/
+noncomputable def exHarm : Harmonic Rex := ⟨exArith⟩
+/-- the geometric state whose log-space sample is `1, 2, 4` -/
+noncomputable def exGeo : Geometric Rex := ⟨exArith⟩
+/-- the paired state whose differences are `1, 2, 4` -/
+noncomputable def exPaired : Paired Rex := ⟨exArith⟩
+/-- two samples `1, 2` and `3, 5` -/
+noncomputable def exUnpaired : Unpaired Rex := Unpaired.fromLists ([1, 2].map inj) ([3, 5].map inj)
+
+theorem exGeo_ok (conf : Confidence Rex) (hv : ValidLevel conf) :
+    ∃ I, exGeo.ciMean linCrit conf = .ok I := by
+  obtain ⟨J, hJ, _, _⟩ := exArith_ok conf hv
+  exact ⟨_, by rw [Geometric.ciMean_map_exp]; show (exArith.ciMean linCrit conf).map _ = _
+               rw [hJ]; rfl⟩
+
+theorem exHarm_ok (conf : Confidence Rex) (hv : ValidLevel conf) :
+    (∃ I, exHarm.ciMean linCrit conf = .ok I) ∧ 0 < exHarm.recip.mean.val ∧
+    ∀ J, exHarm.recip.ciMean linCrit conf.flipped = .ok J → PosBounds J := by
+  have hv' : ValidLevel conf.flipped := by unfold ValidLevel; rw [flipped_level]; exact hv
+  obtain ⟨J, hJ, _, hp⟩ := exArith_ok conf.flipped hv'
+  refine ⟨Harmonic.ciMean_ok_of_pos linCrit exHarm conf J hJ hp, ?_, ?_⟩
+  · show 0 < exArith.mean.val; rw [exArith_mean]; norm_num
+  · intro J' hJ'
+    have : exArith.ciMean linCrit conf.flipped = .ok J' := hJ'
+    rw [hJ] at this
+    injection this with this
+    rw [← this]; exact hp
+
+theorem exUnpaired_ok (conf : Confidence Rex) (hv : ValidLevel conf) :
+    ∃ I, exUnpaired.ciMean linCrit conf = .ok I := by
+  have hs1 : svar [1, 2] = 1 / 2 := by simp [svar, sdev2, smean]; norm_num
+  have hs2 : svar [3, 5] = 2 := by simp [svar, sdev2, smean]; norm_num
+  have hA : welchA [1, 2] = 1 / 4 := by rw [welchA, hs1]; norm_num
+  have hB : welchA [3, 5] = 1 := by rw [welchA, hs2]; norm_num
+  have hd : 0 < welchNu [1, 2] [3, 5] := by
+    have := welchDof_ge (welchA [1, 2]) (welchA [3, 5]) 2 2 le_rfl le_rfl (by rw [hA]; norm_num)
+      (by rw [hB]; norm_num) (by rw [hA, hB]; norm_num)
+    have e : welchNu [1, 2] [3, 5] = welchDof (welchA [1, 2]) (welchA [3, 5]) 2 2 := by
+      simp [welchNu]
+    rw [e]
+    have : min (2 : ℝ) 2 - 1 = 1 := by norm_num
+    linarith
+  have hu : exUnpaired.ciMean linCrit (.upper ⟨9 / 10⟩) =
+      intervalOfKind (.upper (⟨9 / 10⟩ : Rex)) _ _ :=
+    Unpaired.ci_rex linCrit (.upper ⟨9 / 10⟩) [1, 2] [3, 5] (by simp) (by simp)
+      (probOk_of_valid _ (by constructor <;> simp only [Confidence.level] <;> norm_num)) hd
+  exact Unpaired.ok_transfer linCrit_mono linCrit_half exUnpaired conf _ hv _ hu
+
+theorem exWilson_ok (conf : Confidence Rex) (hv : ValidLevel conf) :
+    ∃ I, ciWilson linCrit conf 10 3 = .ok I :=
+  ⟨_, ciWilson_ok_of_valid linCrit_mono linCrit_half conf hv 10 3 (by norm_num) (by norm_num)⟩
+
+theorem exWald_ok (conf : Confidence Rex) (hv : ValidLevel conf)
+    (hs : conf.isTwoSided = true ∨ 1 / 2 ≤ conf.level.val) :
+    ∃ I, ciZNormal linCrit conf 30 12 = .ok I :=
+  ⟨_, ciZNormal_ok_of_valid linCrit conf hv
+    (zOf_nonneg linCrit_mono linCrit_half conf (half_le_quantile conf hv.1.le hs)) 30 12
+    (by norm_num) (by norm_num)⟩
+
+theorem exQuantile_ok (conf : Confidence Rex) (hv : ValidLevel conf) :
+    ∃ I, ciIndices linCrit conf 10 (inj (1 / 2)) = .ok I := by
+  have hq : ValidQuantile (inj (1 / 2)) := by
+    show 0 < (1 / 2 : ℝ) ∧ (1 / 2 : ℝ) < 1; norm_num
+  have hk : successes (inj (1 / 2) : Rex).val 10 = 5 := successes_half_ten
+  rw [ciIndices_main linCrit conf 10 _ hv hq (by norm_num) (by rw [hk]; norm_num)
+    (by rw [hk]; norm_num)]
+  cases conf with
+  | twoSided l =>
+    have hz : 0 ≤ zOf linCrit (.twoSided l) :=
+      zOf_nonneg linCrit_mono linCrit_half _ (half_le_quantile _ hv.1.le (Or.inl rfl))
+    simp only
+    rw [if_neg (not_lt.mpr hz)]
+    exact ⟨_, rfl⟩
+  | upper l => exact ⟨_, rfl⟩
+  | lower l => exact ⟨_, rfl⟩
+
 end instances
 
 end StatsCI.Coherence
